@@ -7,14 +7,16 @@ From Coq Require Import List Bool Arith ZArith.
 From HV Require Import Ord Sprout Tree DriverPrim.
 Import ListNotations.
 
+(* `while epoch_counter < self._generations` *)
+Definition gens_cond (c : cfg) (d : nat) (g : nat) : D bool := gens <- r_generations c d ;; ret (g <? gens).
+
 (* EADeme / DEDeme / SHADEDeme.run_metaepoch *)
 Definition pop_body (c : cfg) (d : nat) (g : nat) : D (nat * bool) :=
   p_engine_iter d ;;;
   v <- p_gsc c ;;
   if v then p_append_meta d ;;; p_deactivate d ;;; ret (S g, true) else ret (S g, false).
 Definition run_pop (c : cfg) (fuel : nat) (d : nat) : D unit :=
-  gens <- r_generations c d ;;
-  r <- while_ fuel (fun g => ret (g <? gens)) (pop_body c d) 0 ;;
+  r <- while_ fuel (gens_cond c d) (pop_body c d) 0 ;;
   if snd r then ret tt else
   p_append_meta d ;;;
   v <- p_lsc c d ;;
@@ -26,8 +28,7 @@ Definition cma_body (c : cfg) (d : nat) (g : nat) : D (nat * bool) :=
   v <- or_ (p_gsc c) p_cma_stop ;;
   if v then p_append_meta d ;;; p_deactivate d ;;; ret (S g, true) else ret (S g, false).
 Definition run_cma (c : cfg) (fuel : nat) (d : nat) : D unit :=
-  gens <- r_generations c d ;;
-  r <- while_ fuel (fun g => ret (g <? gens)) (cma_body c d) 0 ;;
+  r <- while_ fuel (gens_cond c d) (cma_body c d) 0 ;;
   if snd r then ret tt else
   p_append_meta d ;;;
   v <- or_ (p_lsc c d) p_cma_stop ;;
